@@ -1,5 +1,6 @@
 """C07 — after commit the tree is that of a fresh parse, for any edit history."""
 import wire
+from props import edit7 as X
 from props import editlib as E
 from props import treelib as T
 
@@ -54,6 +55,24 @@ def cases(rng, tier):
             ops = burst + [["probe"]] + ops if not auto else ops + burst + [["probe"]]
         ops += [["commit"], ["commit"], ["probe"]]
         yield E.mk_case(syntax, ign, auto, lines, ops)
+    # coverage streams (notes/coverage/C07.json), over the extended alphabet of props/edit7.py (model Ccp.Model.EditX)
+    HIST_OPTS = [{"debug": 1}, {"debug": 2}, {"aiw": 3}, {"aiw": 2}, {"aiw": 1}, {"aiw": 8}, {"form": "tuple"}, {"debug": 1, "aiw": 4}]
+    for i in range({"quick": 900, "thorough": 40000, "search": 1500}[tier]):
+        syntax = rng.choice(T.SYNTAXES)
+        auto = rng.random() < 0.5
+        ign = rng.random() < 0.35
+        r = rng.random()
+        lines = rng.choice(E.SEED_CONFIGS) if r < 0.4 else T.rand_config(rng, 8, r < 0.75, None)
+        if i % 3 == 0:
+            auto = False
+            ops = X.stale_probe_history(rng) + X.rand_ops_x(rng, rng.choice([0, 1, 2]), auto)
+        else:
+            ops = X.rand_ops_x(rng, rng.choice([1, 2, 3, 5, 8]), auto)
+        ops += [["commit"], X.rand_probe(rng), ["commit"], ["probe"]]
+        c = E.mk_case(syntax, ign, auto, lines, ops, "extended")
+        if rng.random() < 0.3:
+            c["opts"] = dict(rng.choice(HIST_OPTS))
+        yield c
 
 
 def neighbours(case, rng):
@@ -62,12 +81,15 @@ def neighbours(case, rng):
         if len(ops) > 1 and rng.random() < 0.5:
             del ops[rng.randrange(len(ops))]
         else:
-            ops.insert(rng.randrange(len(ops) + 1), E.rand_ops(rng, 1, case["auto_commit"])[0])
-        yield E.mk_case(case["syntax"], case["ignore_blank"], case["auto_commit"], case["lines"], ops)
+            ops.insert(rng.randrange(len(ops) + 1), X.rand_ops_x(rng, 1, case["auto_commit"])[0])
+        c = E.mk_case(case["syntax"], case["ignore_blank"], case["auto_commit"], case["lines"], ops)
+        if case.get("opts"):
+            c["opts"] = dict(case["opts"])
+        yield c
 
 
 def impl(case):
-    return E.run_history(case)
+    return X.run_history(case)
 
 
 def oracle(case, ans):
@@ -90,12 +112,43 @@ def oracle(case, ans):
                         fails.append(f"second commit at step {idx - 1} changed the state")
             elif k in ("ins", "atf") and status == "ok" and not case["auto_commit"]:
                 refuse = True
+            elif k in ("rem", "del", "dela") and status == "ok" and _at is not None and steps[idx - 1][3] is not None:
+                # ConfigList.remove(obj) / obj.delete() take the object and all its descendants (as the links of the
+                # committed tree before the call have them) out of the list, and nothing else
+                before, pd = steps[idx - 1][2], steps[idx - 1][3]
+                gone = {_at}
+                for j, par in enumerate(pd["parents"]):
+                    q = j
+                    while pd["parents"][q] != q and q not in gone:
+                        q = pd["parents"][q]
+                    if q in gone:
+                        gone.add(j)
+                want = [t for j, t in enumerate(before) if j not in gone]
+                if case["auto_commit"] and case["ignore_blank"]:
+                    want = T.ref_kept(want, case["syntax"] == "ios", True)
+                if texts != want:
+                    fails.append(f"{op} at step {idx - 1} on line {_at}: texts {before!r} -> {texts!r}, expected {want!r} "
+                                 f"(the line and its descendants {sorted(gone)} removed)")
+            elif k in X.MALFORMED:
+                # a call with a malformed argument is rejected and changes nothing
+                if not status.startswith("err:") or texts != steps[idx - 1][2]:
+                    fails.append(f"malformed call {op} at step {idx - 1}: status {status}, texts {steps[idx - 1][2]!r} -> {texts!r}")
             elif k == "probe":
+                if status == "ok-stale-objects":
+                    fails.append(f"search {op} at step {idx - 1} answered on a committed state with line objects that are not in the "
+                                 "committed list")
+                    status = "ok"
                 if refuse and status == "ok":
-                    fails.append(f"search answered at step {idx - 1} although an insert is uncommitted")
+                    fails.append(f"search {op[:2]} answered at step {idx - 1} although an insert is uncommitted")
                 if not refuse and status != "ok":
                     fails.append(f"search refused at step {idx - 1} on a committed state: {status}")
     return fails[:3]
+
+
+def known_id(case, failure):
+    if "although an insert is uncommitted" in failure and "'crmit'" in failure:
+        return "FC07a"
+    return None
 
 
 def nontrivial(case):
@@ -103,11 +156,15 @@ def nontrivial(case):
 
 
 def describe(case):
-    return {k: case[k] for k in ("syntax", "ignore_blank", "auto_commit", "lines", "ops")}
+    return {k: case[k] for k in ("syntax", "ignore_blank", "auto_commit", "lines", "ops", "opts") if k in case}
 
 
 def buckets(case, ans):
     out = ["syntax:" + case["syntax"], "auto:%d" % case["auto_commit"], "ignore_blank:%d" % case["ignore_blank"]]
     for op, part in zip(case["ops"], ans.split("#")[1:]):
-        out.append("op:" + op[0] + ":" + part.split("~")[0].split("@")[0])
+        name = op[0] + ("-" + op[1] if op[0] == "probe" and len(op) > 1 else "") + ("-obj" if op[-1] == "obj" else "")
+        out.append("op:" + name + ":" + part.split("~")[0].split("@")[0])
+    out.append("origin:" + case.get("_origin", "gen"))
+    if case.get("opts"):
+        out += T.opt_buckets(case)
     return out
